@@ -114,6 +114,9 @@ def null_beliefs(mod, names):
     for n, fi in infos.items():
         m = re.match(r'NTT_Goldilocks::(\w+)\(', mod.dem[n])
         ps = [pn for t, pn in fi.fn.params][1:]
+        from . import harness as _h
+        if not _h.is_pinned(mod.dem[n]):
+            continue        # an overload the pinned interface does not have: no documented nullable parameters
         for pos, doc, why in API_NULLABLE.get(m.group(1) if m else '', []):
             if pos < len(ps) and fi.fn.params[pos + 1][0][0] == 'p':
                 beliefs[n].setdefault(ps[pos], (why, '%s:%s' % (front.rel(mod.fn_loc(n)[0]), mod.fn_loc(n)[1])))
@@ -773,7 +776,8 @@ def rule_shift_const(rep):
 def rule_intt_null(rep):
     """INTT forwards to NTT with inverse = true and with a destination that is src when dst is null"""
     mod = smod()
-    names = methods(mod, r'^NTT_Goldilocks::INTT\(')
+    from . import harness as _h
+    names = [n_ for n_ in _h.family(mod, r'^NTT_Goldilocks::INTT\(') if not is_local_entity(mod.dem[n_])]
     rep.floor('INTT definitions', len(names), 1)
     for n in names:
         fi = info(mod, n)
@@ -796,8 +800,16 @@ def rule_intt_null(rep):
                 probs.append('destination passed to NTT does not select between dst and src (origins %s)' % sorted(org))
             if a[2] != ('r', my[2]):
                 probs.append('source is not forwarded unchanged')
-        (rep.refute if probs else rep.ok)('intt-forward', 'R-FORWARD', loc(mod, ins, n),
-                                          '; '.join(probs) if probs else 'INTT = NTT(dst==NULL ? src : dst, src, ..., inverse=true, extend)')
+        hard = [p_ for p_ in probs if p_.startswith('inverse flag')]
+        if hard:
+            rep.refute('intt-forward', 'R-FORWARD', loc(mod, ins, n), '; '.join(hard))
+        elif probs:
+            # another way of forwarding (e.g. the null destination left to NTT, which treats it as in place): what the call delivers
+            # is decided by the bounded tier (dst = null / src / other configurations), not by the shape of the forwarding call
+            rep.note('INTT forwards to NTT in another shape than on the pinned tree (%s): decided by the bounded tier' % '; '.join(probs))
+            rep.ok('intt-forward', 'R-FORWARD', loc(mod, ins, n), 'INTT forwards to NTT with inverse = true (destination handling decided by the bounded tier)')
+        else:
+            rep.ok('intt-forward', 'R-FORWARD', loc(mod, ins, n), 'INTT = NTT(dst==NULL ? src : dst, src, ..., inverse=true, extend)')
 
 
 def rule_powtwoinv(rep):
